@@ -38,7 +38,8 @@ REQUIRED_PROBES = ['refund_at_deadline', 'refund_deadline_minus_1', 'claim_after
                    'digest_param', 'hash_size_1', 'hash_size_16', 'hash_size_20',
                    'hash_size_32', 'hash_size_64', 'step_between_reads', 'corrupt_sig',
                    'corrupt_preimage', 'corrupt_pubkey', 'corrupt_selector', 'threshold_per_call',
-                   'default_timestamp', 'crafted_witness', 'witness_with_code', 'witness_ending_in_return']
+                   'default_timestamp', 'crafted_witness', 'witness_with_code', 'witness_ending_in_return',
+                   'lock_form_bytes', 'lock_form_resrc', 'lock_form_redec', 'explicit_limits']
 
 LKINDS = ['htlc_sha', 'htlc_shake', 'htlc2_sha', 'htlc2_shake', 'ptlc', 'ptlc_tweak']
 WKINDS = ['htlc', 'htlc2', 'ptlc', 'ptlc_refund']
